@@ -25,6 +25,7 @@ type Oblig struct {
 	PC       []PCItem
 	Goal     *F
 	Idx      []IdxT
+	Keys     []KeyT
 	Side     bool // side obligation (no-wrap / convert-range): recorded, not a violation by itself
 	Cover    bool // satisfiability check (vacuity guard): expected sat
 	Canary   bool // must be refuted
@@ -53,42 +54,44 @@ type Frame struct {
 }
 
 type Exec struct {
-	eng        *Engine
-	decls      *Decls
-	fn         *ssa.Function
-	con        *Contract
-	key        string
-	obs        []*Oblig
-	paths      int
-	bound      int // -1: proof mode; >=0: bounded refutation mode
-	fresh      int
-	epochs     int
-	tags       map[string]int
-	strs       map[string]int
-	keyTypes   map[string]types.Type
-	arrStorage map[string]bool
-	labels     map[ssa.Instruction]string
-	loops      map[*ssa.Function]*LoopInfo
-	notes      map[string]bool
-	proveCache map[string]bool
-	sideStats  struct{ asked, proved int }
-	readLog    *[]readRec
-	errGlobals map[string]bool
-	noWrapRec  map[string]bool // name -> proved on all paths
-	curFrame   *Frame
-	funcCells  map[string]Val
-	iterMap    map[ssa.Value]Val
-	alloc0     string
-	canaryDone bool
-	arrOrigin  map[string]originInfo // backing arrays created by slicing an array value
-	alias      map[string][]string   // backing-array term -> arrays it may denote (append results)
-	matContext string
-	probeVar   string
-	idxLog     *[]IdxT           // collector of (index, sequence) pairs read while evaluating a quantifier body
-	probe      *[]SeqRef         // collector of sequences indexed by a probe variable (see seqsOf)
-	noWD       bool              // suppress well-definedness obligations (while assuming the function's own requires)
-	withQ      bool              // include raw quantified assumptions in queries (second attempt)
-	modelTerms map[string]string // names (parameters, lets) -> scalar terms whose values are asked from a model
+	eng         *Engine
+	decls       *Decls
+	fn          *ssa.Function
+	con         *Contract
+	key         string
+	obs         []*Oblig
+	paths       int
+	bound       int // -1: proof mode; >=0: bounded refutation mode
+	fresh       int
+	epochs      int
+	tags        map[string]int
+	strs        map[string]int
+	keyTypes    map[string]types.Type
+	arrStorage  map[string]bool
+	labels      map[ssa.Instruction]string
+	loops       map[*ssa.Function]*LoopInfo
+	notes       map[string]bool
+	proveCache  map[string]bool
+	sideStats   struct{ asked, proved int }
+	readLog     *[]readRec
+	errGlobals  map[string]bool
+	noWrapRec   map[string]bool // name -> proved on all paths
+	curFrame    *Frame
+	funcCells   map[string]Val
+	iterMap     map[ssa.Value]Val
+	alloc0      string
+	canaryDone  bool
+	arrOrigin   map[string]originInfo // backing arrays created by slicing an array value
+	alias       map[string][]string   // backing-array term -> arrays it may denote (append results)
+	unfoldDepth map[string]int
+	curKeys     []KeyT
+	matContext  string
+	probeVar    string
+	idxLog      *[]IdxT           // collector of (index, sequence) pairs read while evaluating a quantifier body
+	probe       *[]SeqRef         // collector of sequences indexed by a probe variable (see seqsOf)
+	noWD        bool              // suppress well-definedness obligations (while assuming the function's own requires)
+	withQ       bool              // include raw quantified assumptions in queries (second attempt)
+	modelTerms  map[string]string // names (parameters, lets) -> scalar terms whose values are asked from a model
 }
 
 func (x *Exec) recordModelTerm(name string, v Val) {
@@ -246,7 +249,7 @@ func (x *Exec) where(in ssa.Instruction) string {
 // ---------- obligations ----------
 
 func (x *Exec) emit(fr *Frame, st *State, name, kind string, goal *F, in ssa.Instruction) *Oblig {
-	o := &Oblig{Name: x.key + "#" + fr.prefix + name, Kind: kind, Fn: x.key, Where: x.where(in), PC: st.pc[:len(st.pc):len(st.pc)], Goal: goal, Idx: st.idx[:len(st.idx):len(st.idx)], Trace: st.trace[:len(st.trace):len(st.trace)]}
+	o := &Oblig{Name: x.key + "#" + fr.prefix + name, Kind: kind, Fn: x.key, Where: x.where(in), PC: st.pc[:len(st.pc):len(st.pc)], Goal: goal, Idx: st.idx[:len(st.idx):len(st.idx)], Keys: st.keys[:len(st.keys):len(st.keys)], Trace: st.trace[:len(st.trace):len(st.trace)]}
 	x.obs = append(x.obs, o)
 	return o
 }
@@ -280,7 +283,7 @@ func (x *Exec) prove(st *State, goal string) bool {
 	if goal == "false" {
 		return false
 	}
-	o := &Oblig{PC: st.pc, Goal: atom(goal), Idx: st.idx}
+	o := &Oblig{PC: st.pc, Goal: atom(goal), Idx: st.idx, Keys: st.keys}
 	q := x.buildQuery(o)
 	key := strings.Join(q.Asserts, "&") + "|-" + goal
 	if r, ok := x.proveCache[key]; ok {
